@@ -641,6 +641,19 @@ func probeScenarios() []Scenario {
 				}
 			}
 			runOnce("first run", firstStop, c1)
+			// 0 … 3 further setter calls first (the number of settings made between two runs is a
+			// dimension of its own), then the two that matter
+			for k, extra := 0, core.Choose(4); k < extra; k++ {
+				switch k {
+				case 0:
+					b.WithBatchErrorHandling(!firstStop)
+				case 1:
+					b.WithWait(waitVals[1])
+				default:
+					b.WithMaxRetries(retryVals[1])
+				}
+			}
+			b.WithMaxRetries(1).WithWait(0)
 			b.WithBatchErrorHandling(firstStop).WithBatchConcurrency(c2) // continueOnError = firstStop => stop = !firstStop
 			runOnce("second run after builder reconfiguration", !firstStop, c2)
 		}
@@ -692,7 +705,20 @@ func probeScenarios() []Scenario {
 					}
 					return []flyt.Result{flyt.NewResult(1)}, nil
 				})
-				reconf = func() { b.WithMaxRetries(r2).WithWait(w2) }
+				reconf = func() {
+					for k, extra := 0, core.Choose(4); k < extra; k++ {
+						if k%2 == 0 {
+							b.WithMaxRetries(retryVals[k/2])
+						} else {
+							b.WithWait(waitVals[1])
+						}
+					}
+					if core.Choose(2) == 0 {
+						b.WithMaxRetries(r2).WithWait(w2)
+					} else {
+						b.WithWait(w2).WithMaxRetries(r2) // the wait is set while the budget is still the old one
+					}
+				}
 				run = func() error { _, err := flyt.Run(context.Background(), b, flyt.NewSharedStore()); return err }
 				getN, getW = b.GetMaxRetries, b.GetWait
 			} else {
@@ -706,7 +732,20 @@ func probeScenarios() []Scenario {
 					}
 					return flyt.NewResult(1), nil
 				})
-				reconf = func() { b.WithMaxRetries(r2).WithWait(w2) }
+				reconf = func() {
+					for k, extra := 0, core.Choose(4); k < extra; k++ {
+						if k%2 == 0 {
+							b.WithMaxRetries(retryVals[k/2])
+						} else {
+							b.WithWait(waitVals[1])
+						}
+					}
+					if core.Choose(2) == 0 {
+						b.WithMaxRetries(r2).WithWait(w2)
+					} else {
+						b.WithWait(w2).WithMaxRetries(r2) // the wait is set while the budget is still the old one
+					}
+				}
 				run = func() error { _, err := flyt.Run(context.Background(), b, flyt.NewSharedStore()); return err }
 				getN, getW = b.GetMaxRetries, b.GetWait
 			}
